@@ -410,12 +410,14 @@ class Analysis:
                 lv = self.len_of_local[target]
                 if name == "push" and i == 0:
                     d.assign(lv, lv, 1)
+                    d.add(lv, 0, MAXLEN)          # a Vec never exceeds isize::MAX elements (push would abort on capacity overflow)
                 elif name in ("clear",) and i == 0:
                     d.assign(lv, 0, 0)
                 elif name == "resize" and i == 0 and len(t.args) >= 2 and self.lin_of_operand(t.args[1], env) is not None:
                     f = self.lin_of_operand(t.args[1], env)
                     d.assign(lv, f[1], f[2])
                     d.add(0, lv, 0)
+                    d.add(lv, 0, MAXLEN)
                 elif name in ("len", "is_empty", "capacity", "as_mut_slice", "deref_mut", "index_mut", "iter_mut", "as_mut", "borrow_mut", "get_mut", "first_mut", "last_mut", "swap", "sort", "reverse", "fill", "copy_from_slice"):
                     pass
                 else:
